@@ -2,7 +2,6 @@ package hotline
 
 import (
 	"io/fs"
-	"os"
 	"path/filepath"
 )
 
@@ -36,23 +35,6 @@ func vStub_filepath_Walk(root string, fn filepath.WalkFunc) error {
 		}
 	}
 	return nil
-}
-
-// the seek the download path may use to honour a resume offset
-func vStub_os_File_Seek(f *os.File, offset int64, whence int) (int64, error) {
-	d := vFiles[f]
-	if d == nil {
-		return 0, fs.ErrInvalid
-	}
-	switch whence {
-	case 0:
-		d.pos = int(offset)
-	case 1:
-		d.pos += int(offset)
-	default:
-		d.pos = len(d.data) + int(offset)
-	}
-	return int64(d.pos), nil
 }
 
 type vScriptRW struct {
